@@ -35,9 +35,10 @@ type Proxy struct {
 }
 
 type command struct {
-	id  string
-	rpc *goatorepo.Rpc
-	err error
+	id     string
+	client *proxyClient
+	rpc    *goatorepo.Rpc
+	err    error
 }
 
 type proxyClient struct {
@@ -115,7 +116,11 @@ func (p *Proxy) serveClients(ctx context.Context) {
 				p.forwardRpc(cmd.id, cmd.rpc)
 			} else if cmd.err != nil {
 				p.mutex.Lock()
-				delete(p.clients, cmd.id)
+				// Only forget the connection that failed, not a newer one attached
+				// under the same name.
+				if p.clients[cmd.id] == cmd.client {
+					delete(p.clients, cmd.id)
+				}
 				p.mutex.Unlock()
 				if p.clientDisconnect != nil {
 					p.clientDisconnect(cmd.id, cmd.err)
@@ -184,7 +189,7 @@ func (p *Proxy) forwardRpc(source string, rpc *goatorepo.Rpc) {
 // proxy is shutting down and nobody is listening any more.
 func (c *proxyClient) report(err error) {
 	select {
-	case c.toServer <- command{id: c.id, err: err}:
+	case c.toServer <- command{id: c.id, client: c, err: err}:
 	case <-c.proxyCtx.Done():
 	}
 }
